@@ -204,3 +204,11 @@ End Containers.
 
 Arguments Ok {A} a.
 Arguments RaiseIndexError {A}.
+Arguments CList {W} l.
+Arguments CDict {W} d.
+Arguments CMono {W} d.
+Arguments CExpr {W} nsym P.
+Arguments CSeries {W} s.
+Arguments EV {W} mono coeff.
+Arguments NV {W} v.
+Arguments NE {W} e.
